@@ -31,6 +31,15 @@ func TestWorker(t *testing.T) {
 		writeJSON(job.Out, map[string]interface{}{"infra": []string{err.Error()}})
 		return
 	}
+	if job.Mode == "mkconfig" {
+		if err := WriteConfigCache(job.ConfigCache); err != nil {
+			writeJSON(job.Out, map[string]interface{}{"infra": []string{err.Error()}})
+			return
+		}
+		writeJSON(job.Out, map[string]interface{}{"ok": true})
+		return
+	}
+	env.CachePath = job.ConfigCache
 	p := registry[job.Prop]
 	if p == nil {
 		t.Fatalf("unknown property %q", job.Prop)
